@@ -201,6 +201,9 @@ def judge(run: Run, res) -> None:
                 sg = "crash|" + (crash_signature(detail, "daemon") or "daemon|unparsed")
             elif klass in ("same-line-order", "advisory-note-placement", "exit-status-blocker"):
                 sg = klass
+            elif klass == "stale-diagnostic" and codes == ["nocode"] and "def m(y:" in detail and "self" not in detail:
+                # same note, method signature rendered without its `self` parameter by the daemon
+                sg = "note-text|method-signature-rendered-without-self"
             else:
                 direction = {"stale-diagnostic": "stale-survives", "missing-diagnostic": "missed"}.get(klass, klass)
                 sg = "%s|%s|after:%s" % (direction, ",".join(codes[:3]) or "-", last)
@@ -220,10 +223,12 @@ def run(run: Run) -> None:
     import hypothesis
     from hypothesis import given, settings, strategies as st, HealthCheck
 
-    profile = "basic"
+    profile = os.environ.get("VERIF_C03_PROFILE", "structure")  # the env override is a development aid (exploring fenced profiles)
     run.rule = (
-        "G2 edit histories in the '%s' profile (definition-level edits: change/add/remove functions, classes incl. base-class changes, constants, aliases, generics, NamedTuple/dataclass/enum, overloads; uses through import/from; type: ignore on/off) "
-        "driven through an in-process dmypy Server (cmd_check after every step) and compared with a fresh `python -m mypy` process on the same files: status, per-file ordered diagnostics, multiset. Non-trivial: a step answered by a fine-grained update that re-processed targets in at least two modules (the edit propagated)." % profile
+        "G2 edit histories in the '%s' profile on import graphs that start acyclic (definition-level edits: change/add/remove functions, classes incl. base-class changes and 'make the local class a subclass of the imported one', constants, aliases, generics, protocols, "
+        "NamedTuple/TypedDict/dataclass/enum, overloads, decorators; body-only errors; remove/restyle imports incl. function-level and TYPE_CHECKING imports; syntax errors and semantic-analysis blockers switched on and removed again; type: ignore on/off) "
+        "driven through an in-process dmypy Server (cmd_check after every step) and compared with a fresh `python -m mypy` process on the same files: status, per-file ordered diagnostics, multiset. "
+        "Non-trivial: a step answered by a fine-grained update that re-processed targets in at least two modules (the edit propagated)." % profile
     )
     run.assumptions = ["the daemon is driven in-process through Server.cmd_check (the socket/IPC path is C16's subject)", "after a wrong answer or crash the server is restarted so that findings are independent", "richer profiles (star imports, module add/delete/rename, stubs, packages) are fenced off until their findings saturate - see DESIGN.md"]
     seeds = []
